@@ -1,7 +1,7 @@
 //! The public constructors of every parser (`from_read`, `from_boxed_dyn_read`, `from_buf_reader` with an unused and with a
 //! pre-filled `BufReader`) against `new(LineReader::new(DeferredReader::from_read(..)))`, which the other suites use: same items
-//! and same end for every way of building the parser (C01), no read of the source before the first item that the reference
-//! does not need either and none after the source ended (C09).
+//! and same end for every way of building the parser (C01), under line-by-line delivery no more of the source pulled before the first item than the reference needs, and no read
+//! after the source ended (C09).
 use std::io::{BufRead, BufReader};
 use std::panic::{catch_unwind, AssertUnwindSafe};
 use std::rc::Rc;
@@ -15,7 +15,7 @@ use crate::common::*;
 struct Out {
     items: Vec<String>,
     end: String,
-    /// calls of the source when the first item was handed out
+    /// bytes the source had delivered when the first item was handed out
     calls_at_first: usize,
     calls_after_end: usize,
 }
@@ -35,14 +35,14 @@ macro_rules! dimacs_out {
             Ok(mut p) => {
                 if let Some(h) = p.header() {
                     items.push(format!("{:?}", h));
-                    first = $m.calls.get();
+                    first = $m.delivered.get();
                 }
                 loop {
                     match p.next_clause() {
                         Ok(Some(c)) => {
                             items.push(format!("{:?}", c));
                             if first == usize::MAX {
-                                first = $m.calls.get();
+                                first = $m.delivered.get();
                             }
                         }
                         Ok(None) => break "clean".to_string(),
@@ -68,7 +68,7 @@ macro_rules! btor2_out {
                     Ok(Some(l)) => {
                         items.push(format!("{:?}", l));
                         if first == usize::MAX {
-                            first = $m.calls.get();
+                            first = $m.delivered.get();
                         }
                     }
                     Ok(None) => break "clean".to_string(),
@@ -102,16 +102,17 @@ macro_rules! aiger_out {
     }};
 }
 
-const WAYS: &[&str] = &["new", "from_read", "from_boxed_dyn_read", "from_buf_reader(unused, capacity 1)", "from_buf_reader(unused, capacity 8192)", "from_buf_reader(pre-filled, capacity 1)", "from_buf_reader(pre-filled, capacity 7)", "from_buf_reader(pre-filled, capacity 8192)", "new on a reader that was advanced over a 7-byte preamble"];
+const WAYS: &[&str] = &["new", "from_read", "from_boxed_dyn_read", "from_buf_reader(unused, capacity 1)", "from_buf_reader(unused, capacity 8192)", "from_buf_reader(pre-filled, capacity 1)", "from_buf_reader(pre-filled, capacity 7)", "from_buf_reader(pre-filled, capacity 8192)", "new on a reader that was advanced over a 7-byte preamble", "from_buf_reader(unused, capacity 0)"];
 
 fn buf_reader(way: usize, src: Src) -> BufReader<Src> {
     let cap = match way {
+        9 => 0,
         3 | 5 => 1,
         6 => 7,
         _ => 8192,
     };
     let mut b = BufReader::with_capacity(cap, src);
-    if way >= 5 {
+    if (5..=7).contains(&way) {
         let _ = b.fill_buf();
     }
     b
@@ -214,13 +215,10 @@ fn case(di: usize, way: usize, si: usize) -> Option<(String, String)> {
     if got.calls_after_end > 0 && way < 5 {
         return Some(("C09 the source is not called again after it reported the end".into(), format!("{} built by {}: {} further calls", what, WAYS[way], got.calls_after_end)));
     }
-    // the plain constructors hand the source to the same reader: the first item needs exactly the reads the reference needs
-    if (way == 1 || way == 2) && got.calls_at_first != reference.calls_at_first {
-        return Some(("C09 the first item is handed out after the same reads of the source for every plain constructor".into(), format!("{}: {} reads with new, {} with {}", what, reference.calls_at_first, got.calls_at_first, WAYS[way])));
-    }
-    // an unused BufReader adds nothing: building from it is building from the source
-    if (way == 3 || way == 4) && got.calls_at_first != reference.calls_at_first {
-        return Some(("C09 an unused BufReader does not add reads".into(), format!("{}: {} reads with new, {} with {}", what, reference.calls_at_first, got.calls_at_first, WAYS[way])));
+    // line-by-line delivery: however the parser was built (and whatever read size that implies), its first item is handed out
+    // without pulling more of the source than the parser built by `new` needs, i.e. the lines up to the one that completes the item
+    if matches!(sched.mode, Mode::Lines) && sched.fail_at.is_none() && way != 8 && !(5..=7).contains(&way) && got.calls_at_first != usize::MAX && got.calls_at_first > reference.calls_at_first {
+        return Some(("C09 the first item is handed out without reading past the line that completes it".into(), format!("{}: {} bytes delivered with new, {} with {}", what, reference.calls_at_first, got.calls_at_first, WAYS[way])));
     }
     let _ = m;
     None
@@ -241,7 +239,7 @@ pub fn suite(_prop: &str, _tier: &str, _seed: u64) -> Report {
             }
         }
     }
-    rep.bound = format!("ctor: {} documents (cnf, wcnf, gcnf with default configuration and with ignore_header, btor2, ascii and binary AIGER; well-formed, malformed, truncated, empty) x 8 ways of building the parser (new on a reader that was advanced over a preamble, from_read, from_boxed_dyn_read, from_buf_reader with an unused BufReader of capacity 1/8192 and a pre-filled one of capacity 1/7/8192) x {} schedules (one read, byte by byte, line by line, 5 bytes with every 2nd read interrupted, line by line with a fault at offset 11), each compared with the parser built by new(LineReader::new(DeferredReader::from_read(..)))", DOCS.len(), SCHEDS.len());
+    rep.bound = format!("ctor: {} documents (cnf, wcnf, gcnf with default configuration and with ignore_header, btor2, ascii and binary AIGER; well-formed, malformed, truncated, empty) x 9 ways of building the parser (from_buf_reader with an unused BufReader of capacity 0, new on a reader that was advanced over a preamble, from_read, from_boxed_dyn_read, from_buf_reader with an unused BufReader of capacity 1/8192 and a pre-filled one of capacity 1/7/8192) x {} schedules (one read, byte by byte, line by line, 5 bytes with every 2nd read interrupted, line by line with a fault at offset 11), each compared with the parser built by new(LineReader::new(DeferredReader::from_read(..)))", DOCS.len(), SCHEDS.len());
     rep
 }
 pub fn replay(_prop: &str, args: &[String]) -> i32 {
